@@ -170,6 +170,8 @@ func (m *Model) declSlice() {
 	}
 	m.vc.Declare("sl.nil", nil, SInt)
 	m.vc.Def("(and (= (sl.base sl.nil) 0) (= (sl.off sl.nil) 0) (= (sl.len sl.nil) 0) (= (sl.cap sl.nil) 0))")
+	// a slice cannot be longer than the address space
+	m.vc.Def("(forall ((s Int)) (! (<= (sl.cap s) 4611686018427387904) :pattern ((sl.cap s))))")
 }
 
 // wfSlice: well-formedness of a slice value that comes from the program state.
